@@ -35,6 +35,9 @@ CHECKS = {
         "jobs": [
             {"run": "^TestC02Provenance$", "n": {"quick": 8000, "thorough": 40000}},
             {"run": "^TestC02FaultEnum$", "n": {"quick": 1500, "thorough": 12000}},
+            # values torn or mixed up inside the backends' critical sections are out of the scheduler's reach:
+            # the free-running twin (race detector + provenance of every result) covers them
+            {"run": "^TestC01Stress$", "name": "C01Stress-for-C02", "race": True, "n": {"quick": 100, "thorough": 300}, "shards": {"quick": 1, "thorough": 8}},
         ],
     },
     "C03": {
@@ -157,6 +160,8 @@ CHECKS = {
             {"run": "^TestC09Collisions$", "n": {"quick": 10000, "thorough": 100000}},
             {"run": "^TestC09BufferReuse$", "n": {"quick": 5000, "thorough": 40000}},
             {"run": "^TestC09FailoverCollision$", "n": {"quick": 5000, "thorough": 40000}},
+            # concurrent operations on a colliding pair (one linearizability slot with two keys)
+            {"run": "^TestC08Linearizable$", "name": "C08Linearizable-for-C09", "n": {"quick": 6000, "thorough": 40000}},
         ],
     },
     "C10": {
